@@ -193,7 +193,8 @@ def handle (j : Json) : Json :=
     let h := httpOfJson (getField j "http")
     let info := httpErrorInfo h
     let extra : List (String × Json) := [("status", (info.status : Nat)), ("cimerror", optStrJ info.cimerror),
-      ("pg", info.hasPGErrorDetail), ("basic", basicOffered h)]
+      ("pg", info.hasPGErrorDetail), ("basic", basicOffered h),
+      ("srt", (serverResponseTime (envCodecOfJson (getField j "codec")) h).isSome)]
     match httpLayer h with
     | .ok _ => Json.mkObj ([("out", Json.mkObj [("ok", Json.null)])] ++ extra)
     | .error e => Json.mkObj ([("out", e.toJson)] ++ extra)
